@@ -5,7 +5,7 @@ from harness import smlib as S
 from harness.common import pmap, lean_query, guard, fr, safe_judge, persist, persist_rule
 from harness.c01 import chunks
 
-LEVEL = "translation_validation"
+LEVEL = "proof"
 ENTRY = "socialchoicekit.elicitation_matching.DoubleLambdaTSF.scf"
 
 
